@@ -136,6 +136,7 @@ BuildDeleg(d) ==
                       s3 == IF d[8] = "qualify" THEN QualStep(2, L3q, 0, 5) ELSE NdQualStep(2, L3q, 0)
                   IN History(L3, sg, <<s1, s2, s3>> \o ProbeTail(3, K3), "deleg", <<"chain", d[8]>>)
 
+EncPreStepN(pre) == [a |-> "encryptpre", pre |-> pre, mu |-> Pad(Mu(10), 32), msg |-> Raw12(F12Exp(GTGen, Mu(10))), t |-> Pad(Rand(11), 32), stream |-> Stream(Rand(11))]
 \* ---- family "neg" (C12) -----------------------------------------------------------------------------------------------
 NegCases(sigs) ==
   LET P == P3(sigs)
@@ -146,7 +147,11 @@ NegCases(sigs) ==
                ListOf(<<<<"V", v7>>, <<"V", FromNat(5)>>, <<"U">>>>, 1), ListOf(<<<<"V", v7>>, <<"U">>, <<"V", FromNat(5)>>>>, 1), ListOf(<<<<"V", v7>>, <<"V", Zero>>, <<"U">>>>, 1), ListOf(<<<<"V", v7>>, <<"V", RMod>>, <<"U">>>>, 1),
                ListOf(<<<<"V", Sub(Pow2(256), One)>>, <<"U">>, <<"U">>>>, 1) }
       fills == { ListOf(<<<<"V", v7>>, <<"U">>, <<"V", FromNat(5)>>>>, 1), ListOf(<<<<"V", v7>>, <<"V", FromNat(3)>>, <<"V", FromNat(5)>>>>, 1) }
+      \* ciphertext lists whose entries carry the omitFromKeys flag together with a value: the flag concerns keys only, the slot is bound all the same
+      E(i, v, o) == [idx |-> i, id |-> Pad(v, 32), omit |-> o]
+      flagged == { <<E(0, v7, 1)>>, <<E(0, v7, 0), E(1, FromNat(5), 1)>>, <<E(0, v7, 1), E(2, FromNat(5), 1)>>, <<E(0, FromNat(8), 1)>>, <<E(0, v7, 0), E(1, Zero, 1)>> }
   IN { History(L3, sigs, <<KeygenStep(keyL, 0, 0), EncStepC(c), DecStep(2, 1), DecMasterStep(2)>>, "neg", "differ") : c \in cts }
+     \cup { History(L3, sigs, <<KeygenStep(keyL, 0, 0), EncStepC(c), DecStep(2, 1), DecMasterStep(2), PreStep(c), EncPreStepN(4), DecStep(5, 1)>>, "neg", "flagged-list") : c \in flagged }
      \cup { History(L3, sigs, <<KeygenStep(keyL, 0, 0), EncStepC(ListOf(<<<<"V", v7>>, <<"U">>, <<"U">>>>, 1)), PerturbStep(2, f, by), DecStep(3, 1), DecMasterStep(3)>>, "neg", "perturb")
             : f \in {"a", "b", "c"}, by \in {1, 5} }
      \* attempts to give the hidden slot a value through the public API (outside the documented domain): only the consequence is checked
@@ -158,6 +163,8 @@ NegCases(sigs) ==
 \* ---- family "sig" (C13) -------------------------------------------------------------------------------------------------
 Msgs == IF Tier = "quick" THEN { One, RMod, Sub(Pow2(256), One) } ELSE { Zero, One, Sub(RMod, One), RMod, Sub(Pow2(256), One), RndR(400) }
 OtherMsg(m) == IF Lt(Add(m, One), Pow2(256)) THEN Add(m, One) ELSE Sub(m, One)
+FlipTop(m) == IF Lt(m, Pow2(255)) THEN Add(m, Pow2(255)) ELSE Sub(m, Pow2(255))       \* differs from m modulo r (2^255 is not a multiple of r)
+PlusR(m) == IF Lt(Add(m, RMod), Pow2(256)) THEN Add(m, RMod) ELSE Sub(m, RMod)       \* the same message modulo r: must verify
 SigCases ==
   LET P == P3(1)
       v7 == FromNat(7)
@@ -168,7 +175,8 @@ SigCases ==
   IN UNION { LET K == W!KeyGen(P, Spec(kl), 0, Rand(0)) IN
        UNION { { History(L3, 1, <<KeygenStep(kl, 0, 0), SignStep(1, L, m, 4), VerStep(L, 2, m), VerStep(L, 2, OtherMsg(m)),
                                   VerStep(ListOf(<<<<"V", FromNat(11)>>, <<"U">>, <<"U">>>>, 1), 2, m), PerturbStep(2, "a0", 1), VerStep(L, 6, m), PerturbStep(2, "a1", 1), VerStep(L, 8, m),
-                                  PreStep(L), SignPreStep(1, 10, L, m, 5), VerPreStep(10, 11, m), VerStep(L, 11, m), VerPreStep(10, 2, m)>>, "sig", "sign")
+                                  PreStep(L), SignPreStep(1, 10, L, m, 5), VerPreStep(10, 11, m), VerStep(L, 11, m), VerPreStep(10, 2, m),
+                                  VerStep(L, 2, FlipTop(m)), VerStep(L, 2, PlusR(m)), VerPreStep(10, 11, FlipTop(m))>>, "sig", "sign")
                  : m \in Msgs } : L \in ext(K) } : kl \in keyLs }
      \cup { History(L3, 1, <<KeygenStep(ListOf(<<<<"V", v7>>, <<"U">>, <<"U">>>>, 1), 0, 0), QualStep(1, ListOf(<<<<"V", v7>>, <<"V", FromNat(9)>>, <<"U">>>>, 1), 0, 4),
                               SignStep(2, ListOf(<<<<"V", v7>>, <<"V", FromNat(9)>>, <<"V", FromNat(5)>>>>, 1), One, 5), VerStep(ListOf(<<<<"V", v7>>, <<"V", FromNat(9)>>, <<"V", FromNat(5)>>>>, 1), 3, One),
@@ -197,11 +205,32 @@ AdjustChains ==
       b \in { ListOf(<<<<"U">>, <<"V", FromNat(3)>>, <<"U">>>>, 1), ListOf(<<<<"V", FromNat(3)>>, <<"U">>, <<"V", FromNat(3)>>>>, 1) },
       c \in { <<>>, ListOf(<<<<"V", FromNat(9)>>, <<"V", FromNat(9)>>, <<"V", FromNat(9)>>>>, 1), ListOf(<<<<"V", Sub(Pow2(256), One)>>, <<"H">>, <<"V", Zero>>>>, 1) } }
 
+\* ---- family "inplace" (C18, C interface of the scheme): the output key object is the input key object ------------------------
+\* every history is emitted twice (inplace = 0 / 1) with the same pair id; the steps' meaning does not depend on the flag
+InplacePairs ==
+  LET P == P3(1)
+      v7 == FromNat(7)
+      kls == { ListOf(<<<<"U">>, <<"U">>, <<"U">>>>, 1), ListOf(<<<<"V", v7>>, <<"U">>, <<"U">>>>, 1), ListOf(<<<<"U">>, <<"H">>, <<"U">>>>, 1) }
+      quals(K) == { ListOf(ch, 1) : ch \in { c \in [1..L3 -> SlotChoices({ FromNat(9) } \cup FixedVals(K))] : W!PermittedQual(P, K, Spec(ListOf(c, 1))) } }
+      WithFlag(st, ip) == st @@ [inplace |-> ip]
+  IN UNION { LET K1 == W!KeyGen(P, Spec(kl), 0, Rand(0))  N1 == W!NdKeyGen(P, Spec(kl), 0) IN
+       UNION { { <<"wk:qualify", [ip \in {0, 1} |-> History(L3, 1, <<KeygenStep(kl, 0, 0), WithFlag(QualStep(1, q, f, 4), ip)>> \o ProbeTail(2, W!Qualify(P, K1, Spec(q), f, Rand(4))), "inplace", "qualify")]>>,
+                 <<"wk:ndqualify", [ip \in {0, 1} |-> History(L3, 1, <<NdKeygenStep(kl, 0), WithFlag(NdQualStep(1, q, f), ip)>> \o ProbeTail(2, W!NdQualify(P, N1, Spec(q), f)), "inplace", "ndqualify")]>>,
+                 <<"wk:adjustnd", [ip \in {0, 1} |-> History(L3, 1, <<NdKeygenStep(kl, 0), WithFlag(AdjNdStep(1, 1, FixedList(N1), q), ip), NdQualStep(1, q, 0),
+                                                                         EncStepC(FixedList(W!NdQualify(P, N1, Spec(q), 0))), DecStep(4, 2)>>, "inplace", "adjustnd")]>> }
+               : q \in quals(K1), f \in {0, 1} }
+       \cup { <<"wk:resample", [ip \in {0, 1} |-> History(L3, 1, <<KeygenStep(kl, 0, 0), PreStep(FixedList(K1)), WithFlag(ResampleStep(1, 2, fu, 8), ip)>>
+                                                                      \o ProbeTail(3, W!Resample(P, K1, Rand(8), fu)), "inplace", "resample")]>> : fu \in {0, 1} }
+     : kl \in kls }
+InplaceCases == LET ps == SetToSeq(InplacePairs) IN
+  [k \in 1..(2 * Len(ps)) |-> LET pr == ps[(k + 1) \div 2]  ip == (k + 1) % 2 IN pr[2][ip] @@ [akey |-> pr[1], acode |-> 1, aid |-> (k + 1) \div 2, alias |-> ip]]
+
 Keep == IF "KEEP" \in DOMAIN IOEnv THEN atoi(IOEnv.KEEP) ELSE 1        \* keep one history out of KEEP (rotated by SEED)
 Thinned(sq) == LET sel == SelectSeq([i \in 1..Len(sq) |-> i], LAMBDA i : (i + Seed) % Keep = 0 /\ i % NShards = Shard) IN [k \in 1..Len(sel) |-> sq[sel[k]]]
 Cases == CASE Family = "deleg" -> LET ds == Thinned(SetToSeq(DelegDescs) \o SetToSeq(ChainDescs)) IN [k \in 1..Len(ds) |-> BuildDeleg(ds[k])]
            [] Family = "neg" -> Thinned(SetToSeq(NegCases(1)))
            [] Family = "sig" -> Thinned(SetToSeq(SigCases))
+           [] Family = "inplace" -> Thinned(InplaceCases)
            [] OTHER -> LET ds == Thinned(SetToSeq(AdjustDescs)) IN [k \in 1..Len(ds) |-> BuildAdjust(ds[k])] \o SetToSeq(AdjustChains)
 ASSUME PrintT(<<"cases", Len(Cases)>>)
 ASSUME ndJsonSerialize(IOEnv.OUT, Cases)
